@@ -35,6 +35,7 @@ Recall(id, mode, to, value)     == OpRec("recall", id, mode, "-", "-", 0, 0, Z, 
 SelfD(id, to)                   == OpRec("selfdestruct", id, "catch", "-", "-", 0, 0, Z, "-", to, Z, <<>>)
 Create(id, value, body)         == OpRec("create", id, "catch", "-", "-", 0, 0, Z, "-", "-", value, body)
 Query(id)                       == Pc(id, "catch", "query", "S", Z)
+PcV(id, mode, m, who, amt, v)   == [Pc(id, mode, m, who, amt) EXCEPT !.value = v]
 
 Amt == "1000000"
 Methods == {"delegate", "undelegate", "redelegate", "cancelUnbonding", "withdrawRewards", "claimRewards",
@@ -98,6 +99,12 @@ C02Plain ==
 C02Own ==
     UNION {{[setup |-> SetupC(w, GrantsFor(m, "C0"), d2), top |-> CallC(0, "catch", v, <<Pc(1, "catch", m, "self", Amt), Store(2)>>)] :
               w \in {"self"}, v \in {Z, "777"}, d2 \in BOOLEAN} : m \in {"delegate", "undelegate", "redelegate", "withdrawRewards", "claimRewards"}}
+\* value sent along with a precompile call (the precompiles are not payable: the call must fail and leave nothing)
+C02PcValue ==
+    {[setup |-> Setup("a1", "self", NoGrant, Z), top |-> CallC(0, "catch", v0, <<PcV(1, "catch", m, "S", Amt, "300"), Store(2)>>)] :
+        v0 \in {Z, "900"}, m \in {"query", "delegate", "withdrawRewards", "ibcTransfer"}}
+    \cup {[setup |-> Setup("a1", "self", NoGrant, Z),
+           top |-> CallC(0, "catch", "900", <<CallC(1, "catch", "400", <<PcV(2, "catch", "query", "S", Z, "300"), Store(3)>>), Store(4)>>)]}
 C02Create ==
     UNION {{[setup |-> Setup("a1", w, NoGrant, Z), top |-> Create(0, v, <<Pc(1, "catch", m, "S", Amt), Store(2)>>)] :
               w \in {"self", "W"}, v \in {Z, "600"}} : m \in {"delegate", "withdrawRewards", "setWithdrawAddress", "query"}}
@@ -126,6 +133,10 @@ C05Failed ==
     \cup {[setup |-> Setup("a1", w, <<Grant(TypeOf(m), "", FALSE, 2)>>, Z),
            top |-> CallC(0, "catch", v, <<Pc(1, "catch", m, "S", Amt), Store(2)>>)] :
              m \in {"delegate", "undelegate", "redelegate", "cancelUnbonding"}, w \in {"self", "W"}, v \in {Z, "777"}}
+    \* spends the caller is not entitled to (no grant, expired, too small, a third party's funds): refused before any effect
+    \cup UNION {{[setup |-> Setup("a1", "self", g, Z), top |-> CallC(0, "catch", v, <<Pc(1, "catch", m, who, Amt), Store(2)>>)] :
+                   g \in {NoGrant, <<Grant(TypeOf(m), "999", FALSE, 0)>>, <<Grant(TypeOf(m), "", TRUE, 0)>>}, who \in {"S", "T"}, v \in {Z, "777"}} :
+                 m \in {"delegate", "undelegate", "redelegate", "cancelUnbonding", "ibcTransfer"}}
 \* (vii) re-entrancy: the reverted frame runs in a contract that is also dirty outside of it
 C05Reentrant(m) ==
     { \* A writes, calls B; B re-enters A (alt), which calls the precompile; B then reverts
@@ -146,7 +157,7 @@ C05Destroy ==
 \* (viii) a contract creation whose constructor called a precompile fails
 C05Create(m) == {[c |-> "N0", t |-> Create(0, Z, <<Store(1), PcM(2, "catch", m), Rev(3)>>)],
                  [c |-> "N0", t |-> Create(0, "600", <<PcM(2, "catch", m), Inval(3)>>)]}
-C05All == C05Failed \cup C05Destroy \cup C02Plain
+C05All == C05Failed \cup C05Destroy \cup C02Plain \cup C02PcValue
           \cup UNION {{[setup |-> Setup("a1", w, GrantsFor(m, x.c), Z), top |-> x.t] : w \in {"self", "W"}, x \in C05Reentrant(m) \cup C05Create(m)} :
                        m \in {"delegate", "setWithdrawAddress", "withdrawRewards", "approve", "query"}}
           \cup UNION {{[setup |-> Setup("a1", w, GrantsFor(m, x.c), Z), top |-> x.t] : w \in {"self", "W"}, x \in C05Trees(m)} : m \in RevMethods}
@@ -177,6 +188,7 @@ C04Reverted ==
                                           Pc(4, "catch", sp, "S", "2500000"), Store(5)>>)] : sp \in {"delegate", "undelegate"}}
 
 Scenarios == CASE Family = "C02" -> C02Direct \cup C02ViaContract \cup C02Dirty \cup C02Nested \cup C02Forward \cup C02Plain \cup C02Own \cup C02Create
+                                    \cup C02PcValue \cup C05Destroy
                [] Family = "C05" -> C05All
                [] Family = "C04" -> C04Matrix \cup C04Sequences \cup C04Reverted
                [] Family = "C04small" -> C04Matrix \cup C04Reverted
